@@ -1,9 +1,19 @@
 #!/bin/bash
-# usage: tools/seedtest.sh <patch.diff> <Cxx> [tier]  -- apply a seeded change to /repo, run the check, undo
+# usage: tools/seedtest.sh <patch.diff> <Cxx> [tier]
+# default: apply the seeded change to /repo itself, run the check, undo (git -C /repo checkout -- .)
+# SEED_WT=1: use a scratch worktree of /repo HEAD and VERIF_REPO instead (when other work is reading /repo)
 set -u
 P=$(realpath $1); ID=$2; TIER=${3:-quick}
-git -C /repo apply "$P" || { echo "PATCH DOES NOT APPLY"; exit 3; }
-/venv/bin/python /verif/tools/check.py $ID --tier $TIER 2>&1 | grep -v WARN | tail -8
-rc=${PIPESTATUS[0]}
-git -C /repo checkout -- .
+if [ "${SEED_WT:-0}" = "1" ]; then
+  W=/tmp/seed/run_$$; git -C /repo worktree add --detach $W HEAD -q || exit 3
+  git -C $W apply "$P" || { echo "PATCH DOES NOT APPLY"; git -C /repo worktree remove --force $W; exit 3; }
+  VERIF_REPO=$W /venv/bin/python /verif/tools/check.py $ID --tier $TIER 2>&1 | grep -v WARN | tail -8
+  rc=${PIPESTATUS[0]}
+  git -C /repo worktree remove --force $W
+else
+  git -C /repo apply "$P" || { echo "PATCH DOES NOT APPLY"; exit 3; }
+  /venv/bin/python /verif/tools/check.py $ID --tier $TIER 2>&1 | grep -v WARN | tail -8
+  rc=${PIPESTATUS[0]}
+  git -C /repo checkout -- .
+fi
 echo "exit=$rc"
